@@ -1,4 +1,5 @@
 import Pyrealb.Lemmas.ClauseFrPlain
+import Pyrealb.Lemmas.ClauseFrPlainNeg
 import Pyrealb.Model.ClauseFrRealize
 /-! # C08 (French half) — the constituent and the dependency notation of the same clause realize identically
 
@@ -120,5 +121,78 @@ example : ∃ cv, conjugate (plainVerb plainWitness) false none = .ok cv ∧
     (∀ t ∈ subjToks plainWitness ++ cv.1 ++ compToks plainWitness, t.form ≠ []) := by
   refine ⟨([.v _ _, .v _ _], false), rfl, ?_⟩
   decide
+
+/-! ### the plain fragment with a negation -/
+
+/-- **partial, with negation**: a clause whose only sentence-type flag is a negation (`neg: true` or any second
+    negative word), in any tense but the imperative, with any subject and ANY NUMBER of non-pronominalized direct /
+    prepositional complements in any order, whose verb is not essentially reflexive and conjugates (first token a
+    verb form), realizes to the same tokens in both notations: the constituent notation runs `doPronounPlacement` on
+    the tokens of the VP and puts the subject in front, the dependency notation runs it on the whole clause
+    (`place_prefix`); that the result holds no empty realization is PROVED from the closed form of the placement.
+    Clauses with PRONOMINALIZED complements are not covered: the two notations pronominalize with different code
+    (`PhraseFr.pronominalize` / `DependentFr.pronominalize`) and do disagree there (`disagree_other_prep_pronoun`,
+    `disagree_modal_cod`, the `dir.pro.agr` roots of known_findings.d/C08fr.json). -/
+theorem notations_agree_fr_neg (sp : Spec) (hp : PlainN sp) (hnr : sp.verb.pat ≠ some [reflStr])
+    (hw : ∀ nv, sp.typ.neg = some nv → nv.word2 ≠ [])
+    (cv : List Tok × Bool) (hcv : conjugate (negVerb sp) false none = .ok cv)
+    (y : VT) (f : Str) (tl : List Tok) (hhead : cv.1 = .v y f :: tl)
+    (hne : ∀ t ∈ subjToks sp ++ cv.1 ++ compToks sp, t.form ≠ []) :
+    realize .phrase sp = realize .dep sp := by
+  have hnv : (negVerb sp).isMod = false ∧ (negVerb sp).isProg = false ∧ (negVerb sp).pat ≠ some [reflStr] := by
+    unfold negVerb
+    split <;> simp [plainVerb, Spec.verbT, mkV, hnr]
+  obtain ⟨hyn, hym, hyp, hyr, htl⟩ :=
+    conj_plain_head (negVerb sp) hnv.1 hnv.2.1 (negVerb_lier sp) hnv.2.2 cv hcv y f tl hhead
+  have hvp : ∀ t ∈ cv.1 ++ compToks sp, t.form ≠ [] := fun t ht => hne t (by
+    rcases List.mem_append.mp ht with h | h
+    · exact List.mem_append_left _ (List.mem_append_right _ h)
+    · exact List.mem_append_right _ h)
+  have hpost : ∀ t ∈ tl ++ compToks sp, match t with | .v z _ => z.neg2 = none | _ => True := by
+    intro t ht
+    rcases List.mem_append.mp ht with h | h
+    · have := htl t h
+      cases t <;> simp_all [TokTailOk]
+    · have := compToks_noV sp t h
+      cases t <;> simp_all [Tok.isV]
+  have hyw : ∀ w, y.neg2 = some w → w ≠ [] := by
+    intro w hwy
+    rw [hyn] at hwy
+    unfold negVerb at hwy
+    cases hn : sp.typ.neg with
+    | none => simp [hn, plainVerb, Spec.verbT, mkV] at hwy
+    | some nv =>
+      simp only [hn, Option.some.injEq] at hwy
+      subst hwy
+      exact hw nv hn
+  obtain ⟨placed, hpl, hpne⟩ := place_plain_forms y f (tl ++ compToks sp) hym hyp hyr hpost
+    (by have := hvp (.v y f) (by rw [hhead]; simp); simpa [Tok.form] using this) hyw
+    (fun t ht => hvp t (by rw [hhead]; exact List.mem_cons_of_mem _ ht))
+  have hpl' : placePronouns false (cv.1 ++ compToks sp) = .ok placed := by rw [hhead]; exact hpl
+  have hroot : rootIsVToks cv.1 = true := by rw [hhead]; cases tl <;> rfl
+  have hall : ∀ t ∈ subjToks sp ++ placed, t.form ≠ [] := by
+    intro t ht
+    rcases List.mem_append.mp ht with h | h
+    · exact hne t (List.mem_append_left _ (List.mem_append_left _ h))
+    · exact hpne t h
+  simp only [realize, realizePhrase, realizeDep, plainN_phrase sp hp cv hcv hvp, plainN_dep sp hp cv hcv hroot hne,
+    hpl', Except.map, removeEmpty_id _ hall]
+
+/-- non-vacuity: « le chat ne mange plus le chat dans le chat » (passé composé: « n'a plus mangé ») -/
+def negWitness : Spec :=
+  { subj := some (.np (chat 0)), verb := mangerLex, t := .pc, comps := [.dir (chat 1), .pp "dans".toList (chat 2)],
+    typ := { neg := some (.word "plus".toList) } }
+
+example : PlainN negWitness :=
+  ⟨rfl, rfl, rfl, rfl, rfl, by decide, rfl, rfl,
+   by intro c hc; simp [negWitness] at hc; rcases hc with rfl | rfl <;> rfl,
+   by simp [negWitness, chat]⟩
+example : ∃ cv y f tl, conjugate (negVerb negWitness) false none = .ok cv ∧ cv.1 = .v y f :: tl ∧
+    (∀ t ∈ subjToks negWitness ++ cv.1 ++ compToks negWitness, t.form ≠ []) := by
+  refine ⟨([.v _ _, .v _ _], false), _, _, _, rfl, rfl, ?_⟩
+  decide
+example : realize .phrase negWitness = realize .dep negWitness ∧ (realize .dep negWitness).isOk = true ∧
+    (realize .dep negWitness).map (fun o => (o.toks.filter (fun t => t.kind ≠ ['N','P'])).map OutTok.form) =
+      .ok ["ne".toList, "a".toList, "plus".toList, "mangé".toList, "dans".toList] := by decide
 
 end Pyrealb.C08Fr
